@@ -199,29 +199,26 @@ Qed.
 
 (* the mailbox-delegated operations fail at once too - except in one window *)
 Theorem delegated_ops_outside r lp :
-  In r op_table -> lp <> LoopLastRecvDone -> after_close r lp = ErrPrompt.
+  In r op_table -> lp <> LoopDrained -> after_close r lp = ErrPrompt.
 Proof.
   intros _ Hlp. unfold after_close. destruct (o_first r); try reflexivity. destruct lp; try reflexivity. contradiction.
 Qed.
 Theorem delegated_ops_refuted :
   exists r lp, In r op_table /\ o_op r = UDelegated /\ after_close r lp = HangsForever.
-Proof. exists (R TDealer UDelegated FMailbox AReply WNobody), LoopLastRecvDone. split; [|split; reflexivity]. cbn. tauto. Qed.
+Proof. exists (R TDealer UDelegated FMailbox AReply WNobody), LoopDrained. split; [|split; reflexivity]. cbn. tauto. Qed.
 
-(* operations that are blocked when close()/term() happens *)
-Theorem blocked_ops_refuted :
-  exists r, In r op_table /\ o_op r <> UDelegated /\ blocked_at_close r = StaysBlocked.
-Proof. exists (R TReq USend FRunning AWaitConn WNobody). split; [cbn; tauto|]. split; [discriminate | reflexivity]. Qed.
-Theorem blocked_ops_outside r :
-  In r op_table -> o_op r <> UDelegated -> ~ (o_type r = TReq /\ o_op r = USend) -> blocked_at_close r <> StaysBlocked.
+(* operations that are blocked when close()/term() happens: every row of the table is released *)
+Theorem blocked_ops_released r :
+  In r op_table -> o_op r <> UDelegated -> blocked_at_close r <> StaysBlocked.
 Proof.
-  intros Hin Hop Hne.
+  intros Hin Hop.
   assert (H : forallb (fun r => match o_op r with UDelegated => true | _ =>
-                 (stype_eqb (o_type r) TReq && uop_eqb (o_op r) USend) ||
                  match blocked_at_close r with StaysBlocked => false | _ => true end end) op_table = true)
     by (vm_compute; reflexivity).
   rewrite forallb_forall in H. specialize (H r Hin).
-  destruct (o_op r) eqn:Eo; try contradiction;
-    destruct (o_type r) eqn:Et; cbn in H; try (destruct (blocked_at_close r); [discriminate..|discriminate H] || discriminate);
-    try (exfalso; apply Hne; split; reflexivity);
-    destruct (blocked_at_close r); try discriminate; discriminate H.
+  destruct (o_op r); try contradiction; destruct (blocked_at_close r); try discriminate; discriminate H.
 Qed.
+(* the classification is not vacuous: a row whose waker is WNobody would stay blocked (the REQ send row was
+   such a row before the Stop arm called deactivate()) *)
+Lemma blocked_nobody_stays : blocked_at_close (R TReq USend FRunning AWaitConn WNobody) = StaysBlocked.
+Proof. reflexivity. Qed.
